@@ -16,6 +16,7 @@ def main():
     c.prove(gen=["wire"])
     c.correspond("wire")
     c.correspond("asn1ids")
+    c.correspond("idsession")
     return c.finish(
         rule="exhaustive over all 65 536 senders (x rounds x digests in thorough); views: all boundary singletons/pairs/triples over "
              "{0,1,254,255,256,257,511,512,32767,32768,65279,65280,65534,65535} plus PRNG views; arbitrary byte strings into both decoders; "
